@@ -110,6 +110,29 @@ fn check_rolls<C: DateRoll>(cal: &C, bm: &Bitmap, d_lo: i64, d_hi: i64, tag: &st
                         acc.bump("settlement moved the result");
                     }
                 }
+                // the named method behind (modifier, settlement) is a public entry point of its own
+                let direct = match (m, flag) {
+                    (Modifier::F, false) => Some(cal.roll_forward_bus_day(&d)),
+                    (Modifier::P, false) => Some(cal.roll_backward_bus_day(&d)),
+                    (Modifier::ModF, false) => Some(cal.roll_mod_forward_bus_day(&d)),
+                    (Modifier::ModP, false) => Some(cal.roll_mod_backward_bus_day(&d)),
+                    (Modifier::F, true) => Some(cal.roll_forward_settled_bus_day(&d)),
+                    (Modifier::P, true) => Some(cal.roll_backward_settled_bus_day(&d)),
+                    (Modifier::ModF, true) => Some(cal.roll_forward_mod_settled_bus_day(&d)),
+                    (Modifier::ModP, true) => Some(cal.roll_backward_mod_settled_bus_day(&d)),
+                    _ => None,
+                };
+                if let Some(dd) = direct {
+                    if from_ndt(&dd) != want {
+                        acc.violate(
+                            &format!("roll-method/{}/{}{}", tag, mod_name(m), if flag { "/settle" } else { "" }),
+                            idx,
+                            serde_json::to_value(case).unwrap(),
+                            json!({"date": fmt_day(z), "method_for": mod_name(m), "settlement": flag, "want": fmt_day(want)}),
+                            json!(fmt_day(from_ndt(&dd))),
+                        );
+                    }
+                }
                 if got != want {
                     acc.violate(
                         &format!("roll/{}/{}{}", tag, mod_name(m), if flag { "/settle" } else { "" }),
@@ -134,6 +157,11 @@ fn check_rolls<C: DateRoll>(cal: &C, bm: &Bitmap, d_lo: i64, d_hi: i64, tag: &st
                     }
                 }
             }
+        }
+        // the predicates are consistent with one another and with the model
+        let (bd, wk, hol, nb, st) = (cal.is_bus_day(&d), cal.is_weekday(&d), cal.is_holiday(&d), cal.is_non_bus_day(&d), cal.is_settlement(&d));
+        if bd != (wk && !hol) || nb == bd || bd != bm.elig(z, false) || (bd && st) != bm.elig(z, true) {
+            acc.violate(&format!("predicates/{}", tag), idx, serde_json::to_value(case).unwrap(), json!({"date": fmt_day(z), "law": "business = weekday and not holiday; non-business = not business; both as the calendar is defined"}), json!({"is_bus_day": bd, "is_weekday": wk, "is_holiday": hol, "is_non_bus_day": nb, "is_settlement": st}));
         }
         acc.outcome(&(tag.len(), z - d_lo, from_ndt(&cal.roll(&d, &Modifier::ModF, true)) - z));
     }
@@ -311,7 +339,7 @@ pub fn run(ctx: &Ctx, replay_file: Option<String>) -> ! {
          anchors (leap Feb->Mar, common Feb->Mar, Dec->Jan); every date of the window +-2, 5 modifiers, both \
          settlement flags. (2) all 14 built-in calendars and 5 named unions over EVERY date 1970-2200 (the piped ones also wrapped in the CalType container over 2015-2035, judged against the named calendar's own predicates). (3) all 127 \
          week masks x 5 settlement masks x every holiday subset of one week. (4) long runs of 12..70 and of 365, 366, 367, 400, 430, 800 consecutive closures \
-         at every alignment against two month ends, with and without settlement closures right after the run. Oracle: linear searches on a bitmap of \
+         at every alignment against two month ends, with and without settlement closures right after the run. Every adjustment is made through roll(modifier, settlement) and through the named method behind it; the five predicates are checked for mutual consistency on every date. Oracle: linear searches on a bitmap of \
          the calendar's definition (the word / the week masks and holidays) - for the named calendars, of their own \
          is_bus_day / is_settlement: following = first eligible >= d, previous = last eligible \
          <= d, modified = opposite search when (year, month) differs, actual = d; laws: eligible dates do not move, \
